@@ -271,7 +271,7 @@ def handle (sess : Sess) (rep : Report) (ln : Nat) (toks : List String) (obs : S
     | none => (sess, rep.msg s!"BAD line={ln}")
     | some d =>
       let rep := rep.bump "pool.rr_cursor_fast_forward"
-      let mon := { sess.mon with nBind := sess.mon.nBind + d }
+      let mon := { sess.mon with nBind := sess.mon.nBind + d, view := (parseDigest obs).orElse fun _ => sess.mon.view }
       match sess.model with
       | none => ({ sess with mon := mon }, rep)
       | some s =>
@@ -334,7 +334,9 @@ def handle (sess : Sess) (rep : Report) (ln : Nat) (toks : List String) (obs : S
     match (arg (args rest) "slot").toNat?, (arg (args rest) "d").toNat? with
     | some slot, some d =>
       let rep := rep.bump "pool.de_counter_fast_forward"
-      let mon := { sess.mon with detectors := sess.mon.detectors.modify slot fun x => { x with de := x.de + d } }
+      -- (the monitors' last view of the printed state moves on too: the next operation is judged against this one)
+      let mon := { sess.mon with detectors := sess.mon.detectors.modify slot fun x => { x with de := x.de + d },
+                                 view := (parseDigest obs).orElse fun _ => sess.mon.view }
       match sess.model with
       | none => ({ sess with mon := mon }, rep)
       | some s =>
